@@ -20,6 +20,13 @@ def _switch_body(body, nth):
 
 def emit(repo, spec, H):
     out = ["From Coq Require Import String."]
+    # 0a. constants whose C name collides with another file's (#define TMP_BUF_SIZE in crle.c and cskphuff.c)
+    for cf, cname, coqname in spec.get("c05_renamed_consts", []):
+        dd = H.defines(repo, cf)
+        if cname not in dd:
+            raise ValueError("%s: #define %s not found" % (cf, cname))
+        out.append("(* %s: #define %s *)" % (cf, cname))
+        out.append("Definition %s : Z := %s." % (coqname, H.zlit(H.ceval(dd[cname][1], dd))))
     # 0. lookup tables (the built-in "tables" kind does not accept initialisers spread over several lines)
     for tf, name in spec.get("c05_tables", []):
         m = re.search(r"\b%s\s*\[[^\]]*\]\s*=\s*\{(.*?)\}\s*;" % re.escape(name), H.src(repo, tf), flags=re.S)
